@@ -371,7 +371,9 @@ class CallGraph:
         if key == "registry.py::Registry.__init__" and isinstance(f, ast.Attribute) and f.attr == "register":
             m = prog.method("Check", "register")
             return ([m] if m else []), "dynamic:register"
-        if key == "lexer/lexer.py::Lexer.get_next_token" and isinstance(f, ast.Name) and f.id == "parser":
+        if key == "lexer/lexer.py::Lexer.get_next_token" and isinstance(f, ast.Name) and (f.id == "parser" or any(
+                isinstance(l_, ast.For) and isinstance(l_.target, ast.Name) and l_.target.id == f.id
+                and ast.unparse(l_.iter).endswith(".parsers") for l_ in ast.walk(fn.node))):
             return lexer_parsers(prog), "dynamic:parsers"
         if fn.cls is not None and isinstance(f, ast.Name):
             # checker := getattr(self, f"check_{x}", None) ; checker(...)
@@ -451,6 +453,17 @@ class CallGraph:
 def lexer_parsers(prog: Program) -> List[Fn]:
     c = prog.cls("Lexer")
     e = c.attrs.get("parsers")
+    if e is None and "parsers" in c.methods:
+        # property / method form: `return (self.parse_a, self.parse_b, ...)`
+        rets = [n for n in walk_fn(c.methods["parsers"].node) if isinstance(n, ast.Return) and n.value is not None]
+        if len(rets) == 1 and isinstance(rets[0].value, (ast.Tuple, ast.List)):
+            elts = []
+            for el in rets[0].value.elts:
+                if isinstance(el, ast.Attribute) and isinstance(el.value, ast.Name) and el.value.id in ("self", "cls", "Lexer"):
+                    elts.append(ast.copy_location(ast.Name(id=el.attr, ctx=ast.Load()), el))
+                else:
+                    elts.append(el)
+            e = ast.copy_location(ast.Tuple(elts=elts, ctx=ast.Load()), rets[0].value)
     if not isinstance(e, (ast.Tuple, ast.List)):
         from .model import AnalysisError
         raise AnalysisError("anchor vanished: Lexer.parsers is not a tuple/list display")
